@@ -3,7 +3,7 @@ FIX_COMMITS = ["8d2201b", "df04100", "1af35a7", "d4f6549", "fcb976d", "69fd084"]
 ENGINES = [
  {"name": "E-lib", "path": "/verif/harness", "serves_properties": ["C12","C17","C22","C23","C24","C25","C26","C27"],
   "kind_free_text": "Rust (toolchain 1.88) binary capyv-lib linking /repo's crates: bounded exhaustive enumerators + proptest 1.11 (TestRunner, fixed ChaCha seed from VERIF_SEED, no persistence), reference models / laws as oracles"},
- {"name": "E-prog", "path": "/verif/pyv", "serves_properties": ["C01"],
+ {"name": "E-prog", "path": "/verif/pyv", "serves_properties": ["C01", "C03", "C08"],
   "kind_free_text": "Python (python3-vt) + Hypothesis 6.168: generated Capy programs compiled by the real CLI (built from /repo/crates/capy/src/main.rs) and executed; reference interpreter / metamorphic twins as oracles"},
 ]
 NOTES = "All checks: ./check <id> --tier quick|thorough; VERIF_SEED is the only entropy; exit 2 = infrastructure trouble. Known findings: /verif/known_findings.json."
@@ -11,6 +11,12 @@ NOT_YET = {}
 ELIB_NOTE = "trusts rustc, proptest, the small reference model in the harness source; explores the stated bounded domain exhaustively and beyond it by seeded random generation; absence of violations is established only on what was explored"
 EPROG_NOTE = "trusts the reference interpreter / oracle model in /verif/pyv (written from README.md, core docs and the repo's tests, never from the compiler), Hypothesis, gcc as linker; the real CLI built from /repo/crates/capy/src/main.rs is what is exercised; absence of violations only on what was explored"
 CHECKS = {
+ "C03": {"engine": "E-prog", "technique": "Hypothesis-generated defer/jump programs run through the real CLI; oracle: defer-stack interpreter emitting a pattern (unreached defers optional), matched against stdout",
+         "level": "1920/40000 generated functions with <= 4 nested blocks/loops, <= 3 defers per block and break/continue/return/.try at arbitrary positions, each run with two inputs; every statement prints a unique character, the output must match the LIFO exactly-once pattern",
+         "note": EPROG_NOTE},
+ "C08": {"engine": "E-prog", "technique": "Hypothesis-generated (type, operator, operand) tables evaluated at run time and in comptime by compiled programs; oracle: Python big-int / numpy IEEE arithmetic on bit patterns",
+         "level": "~12000/300000 (case, mode) evaluations per run over all 12 integer types, f32/f64, bool, char: every binary/unary/comparison operator, all int->int cast pairs, int<->float and float<->float casts, boundary-biased operands",
+         "note": EPROG_NOTE + "; numpy float32/float64 is the IEEE reference"},
  "C01": {"engine": "E-prog", "technique": "Hypothesis-generated whole programs (type-directed, by construction) compiled by the real CLI and executed; oracle: independent reference interpreter (stdout + exit status)",
          "level": "960 (quick) / 40000 (thorough) generated programs over 7 feature profiles; each must be accepted, link, and print exactly what the definitional interpreter computes and exit with main's result mod 256; failures are shrunk by Hypothesis to minimal programs",
          "note": EPROG_NOTE},
